@@ -11,6 +11,7 @@
 use super::{hx, pattern, replay_spaces_for, run_spaces_for, Case, Prop, Space};
 use crate::engine::{coords, guard, panic_site, Acc, Ctx, Report, Tier};
 use crate::refs::b58::{self, XKey};
+use crate::refs::{hashes, secp};
 use bsv::{ExtendedPrivateKey as XPrv, ExtendedPublicKey as XPub};
 use serde_json::{json, Value};
 use std::sync::{Arc, OnceLock};
@@ -67,6 +68,110 @@ fn seeds() -> Vec<SeedSpec> {
         }
     }
     v
+}
+
+// ------------------------------------------------------------------ seed content alphabet
+
+/// BIP32 feeds the seed BYTES to HMAC-SHA512 exactly as given. The binary seeds above vary
+/// length × fill pattern only; this alphabet varies what the bytes LOOK like: a library that
+/// "helpfully" hex/base58/base64-decodes, trims, NUL-terminates, normalises or re-derives a
+/// text-looking seed silently opens a different wallet.
+#[derive(Clone, Copy)]
+enum Pos {
+    First,
+    Middle,
+    Last,
+}
+
+struct ContentClass {
+    name: &'static str,
+    prefix: &'static [u8],
+    /// repeated cyclically up to the requested length
+    fill: &'static [u8],
+    /// bytes overwritten after filling
+    patch: &'static [(Pos, u8)],
+}
+
+const HEXL: &[u8] = b"0123456789abcdef";
+const WORDS: &[u8] = b"abandon ability able about above absent absorb abstract absurd abuse access accident ";
+const CONTENT: [ContentClass; 24] = [
+    ContentClass { name: "hex-lower", prefix: b"", fill: HEXL, patch: &[] },
+    ContentClass { name: "hex-upper", prefix: b"", fill: b"0123456789ABCDEF", patch: &[] },
+    ContentClass { name: "hex-mixed-case", prefix: b"", fill: b"0aA1bB2cC3dD4eE5fF6789", patch: &[] },
+    ContentClass { name: "hex-letters-lower", prefix: b"", fill: b"deadbeefcafebabe", patch: &[] },
+    ContentClass { name: "hex-letters-upper", prefix: b"", fill: b"DEADBEEFCAFEBABE", patch: &[] },
+    ContentClass { name: "decimal-digits", prefix: b"", fill: b"1234567890", patch: &[] },
+    ContentClass { name: "all-0x30", prefix: b"", fill: b"0", patch: &[] },
+    ContentClass { name: "all-f", prefix: b"", fill: b"f", patch: &[] },
+    ContentClass { name: "all-F", prefix: b"", fill: b"F", patch: &[] },
+    ContentClass { name: "hex-0x-prefix", prefix: b"0x", fill: HEXL, patch: &[] },
+    ContentClass { name: "hex-trailing-newline", prefix: b"", fill: HEXL, patch: &[(Pos::Last, b'\n')] },
+    ContentClass { name: "hex-space-padded", prefix: b"", fill: HEXL, patch: &[(Pos::First, b' '), (Pos::Last, b' ')] },
+    ContentClass { name: "hex-one-non-hex-char", prefix: b"", fill: HEXL, patch: &[(Pos::Middle, b'g')] },
+    ContentClass { name: "hex-embedded-nul", prefix: b"", fill: HEXL, patch: &[(Pos::Middle, 0)] },
+    ContentClass { name: "hex-trailing-nul", prefix: b"", fill: HEXL, patch: &[(Pos::Last, 0)] },
+    ContentClass { name: "base58-text", prefix: b"", fill: B58, patch: &[] },
+    ContentClass { name: "base64-text", prefix: b"", fill: b"ABCDEFGHIJKLMNOPQRSTUVWXYZabcdefghijklmnopqrstuvwxyz0123456789+/", patch: &[] },
+    ContentClass { name: "xprv-string-text", prefix: b"", fill: b"xprv9s21ZrQH143K3QTDL4LXw2F7HEK3wJUD2nW2nRk4stbPy6cq3jPPqjiChkVvvNKmPGJxWUtg6LnF5kejMRNNU3TGtRBeJgk33yuGBxrMPHi", patch: &[] },
+    ContentClass { name: "mnemonic-words", prefix: b"", fill: WORDS, patch: &[] },
+    ContentClass { name: "mnemonic-embedded-nul", prefix: b"", fill: WORDS, patch: &[(Pos::Middle, 0)] },
+    ContentClass { name: "utf8-japanese-words", prefix: b"", fill: "あいこくしん\u{3000}あいさつ\u{3000}あいだ\u{3000}".as_bytes(), patch: &[] },
+    ContentClass { name: "utf8-latin-precomposed", prefix: b"", fill: "café naïve résumé Ångström ".as_bytes(), patch: &[] },
+    ContentClass { name: "all-spaces", prefix: b"", fill: b" ", patch: &[] },
+    ContentClass { name: "printable-ascii", prefix: b"", fill: b"!\"#$%&'()*+,-./:;<=>?@[\\]^_`{|}~ghijklmnopqrstuvwxyzGHIJKLMNOPQRSTUVWXYZ", patch: &[] },
+];
+/// quick: both sides of the standard range and of 32/64/128; thorough: every length 1..=264
+const CONTENT_LENS_QUICK: [usize; 8] = [16, 31, 32, 33, 64, 65, 128, 130];
+
+fn content_lens(tier: Tier) -> Vec<usize> {
+    if tier.is_thorough() {
+        (1..=264).collect()
+    } else {
+        CONTENT_LENS_QUICK.to_vec()
+    }
+}
+
+fn content_seed(c: &ContentClass, len: usize) -> Vec<u8> {
+    let mut v: Vec<u8> = c.prefix.iter().copied().chain(c.fill.iter().copied().cycle()).take(len).collect();
+    for (pos, b) in c.patch {
+        let at = match pos {
+            Pos::First => 0,
+            Pos::Middle => len / 2,
+            Pos::Last => len - 1,
+        };
+        v[at] = *b;
+    }
+    v
+}
+
+/// case index -> seed of the "seed-content" space: classes × lengths, then the lower- and
+/// upper-case hex TEXT of every binary seed of the "master" space.
+fn content_case(tree: &Tree, lens: &[usize], idx: u64) -> SeedSpec {
+    let grid = (CONTENT.len() * lens.len()) as u64;
+    let bytes_name = if idx < grid {
+        let c = coords(idx, &[lens.len() as u64, CONTENT.len() as u64]);
+        let (class, len) = (&CONTENT[c[1] as usize], lens[c[0] as usize]);
+        (content_seed(class, len), format!("{}/len{}", class.name, len))
+    } else {
+        let c = coords(idx - grid, &[2, tree.seeds.len() as u64]);
+        let base = &tree.seeds[c[1] as usize];
+        let text = if c[0] == 0 { hx(&base.bytes) } else { hx(&base.bytes).to_uppercase() };
+        (text.into_bytes(), format!("hex-text-{}-of/{}", if c[0] == 0 { "lower" } else { "upper" }, base.name))
+    };
+    let standard = (16..=64).contains(&bytes_name.0.len());
+    SeedSpec { name: bytes_name.1, bytes: bytes_name.0, standard }
+}
+
+fn eval_content(tree: &Tree, lens: &[usize], case: &Case, acc: &mut Acc) {
+    let seed = content_case(tree, lens, case.idx);
+    if case.idx == 2 {
+        acc.sample(2, || json!({"space": "seed-content", "seed_name": seed.name, "seed_len": seed.bytes.len(), "seed_as_text": String::from_utf8_lossy(&seed.bytes)}));
+    }
+    let want = b58::bip32_master(&seed.bytes).map(|x| {
+        let p = b58::bip32_neuter(&x);
+        RefNode { x, p }
+    });
+    eval_master_seed(&seed, want.as_ref(), case, acc);
 }
 
 // ------------------------------------------------------------------ memoised reference tree
@@ -398,12 +503,16 @@ fn edge(index: u32) -> &'static str {
 fn eval_master(tree: &Tree, case: &Case, acc: &mut Acc) {
     let si = case.idx as usize;
     let seed = &tree.seeds[si];
-    acc.evaluations += 1;
-    let input = json!({"seed": hx(&seed.bytes), "seed_name": seed.name, "seed_len": seed.bytes.len()});
     if case.idx == 1 {
         acc.sample(0, || json!({"space": "master", "seed_name": seed.name, "seed_len": seed.bytes.len()}));
     }
-    let want = tree.node(si, &[]);
+    eval_master_seed(seed, tree.node(si, &[]), case, acc);
+}
+
+/// One seed through from_seed (both key kinds), string round trips and neutering; `want` is the reference master (None: BIP32 declares the seed invalid).
+fn eval_master_seed(seed: &SeedSpec, want: Option<&RefNode>, case: &Case, acc: &mut Acc) {
+    acc.evaluations += 1;
+    let input = json!({"seed": hx(&seed.bytes), "seed_name": seed.name, "seed_len": seed.bytes.len()});
     acc.transitions += 1;
     let lib = guard(|| XPrv::from_seed(&seed.bytes).map_err(|e| e.to_string()));
     let k = match lib {
@@ -1073,6 +1182,257 @@ fn length_variants() -> Vec<(usize, u8)> {
     v
 }
 
+// ------------------------------------------------------------------ field grid (constructors, serialisation)
+
+/// Extended keys assembled from parts with `ExtendedPrivateKey::new` / `ExtendedPublicKey::new`:
+/// the header fields take values that derivation from a seed never (or with probability 2^-32)
+/// produces — zero / extreme parent fingerprints with non-zero indices, depth 254/255 without a
+/// 255-step chain, chain codes and keys with leading zero bytes.
+struct GridKey {
+    name: &'static str,
+    sk: [u8; 32],
+    /// reference public key, compressed
+    pk: Vec<u8>,
+}
+
+struct Grid {
+    depths: Vec<u8>,
+    indices: Vec<u32>,
+    /// None = the `parent_fingerprint: None` argument of `new` (parent unknown)
+    fps: Vec<Option<[u8; 4]>>,
+    keys: Vec<GridKey>,
+    chains: Vec<(&'static str, [u8; 32])>,
+}
+
+impl Grid {
+    fn dims(&self) -> [u64; 6] {
+        [2, self.depths.len() as u64, self.indices.len() as u64, self.fps.len() as u64, self.keys.len() as u64, self.chains.len() as u64]
+    }
+    fn size(&self) -> u64 {
+        self.dims().iter().product()
+    }
+}
+
+fn arr32(h: &str) -> [u8; 32] {
+    let mut a = [0u8; 32];
+    a.copy_from_slice(&hex::decode(h).expect("hex"));
+    a
+}
+
+fn grid(tier: Tier) -> Grid {
+    let thorough = tier.is_thorough();
+    let mut sks: Vec<(&'static str, [u8; 32])> = vec![
+        ("one", arr32("0000000000000000000000000000000000000000000000000000000000000001")),
+        ("n-1", arr32("fffffffffffffffffffffffffffffffebaaedce6af48a03bbfd25e8cd0364140")),
+        ("bip32-tv1-master", arr32("e8f32e723decf4051aefac8e2c93c9c5b214313817cdb01a1494b917c8436b35")),
+    ];
+    let mut chains: Vec<(&'static str, [u8; 32])> = vec![
+        ("all-zero", [0u8; 32]),
+        ("leading-zero-bytes", arr32("000000000102030405060708090a0b0c0d0e0f101112131415161718191a1b1c")),
+        ("all-ff", [0xffu8; 32]),
+        ("bip32-tv1-master", arr32("873dff81c02f525623fd1fe5167eac3a55a049de3d314bb42ee227ffed37d508")),
+    ];
+    let mut depths: Vec<u8> = vec![0, 1, 2, 254, 255];
+    let mut indices: Vec<u32> = vec![0, 1, 0x7fff_ffff, 0x8000_0000, 0xffff_ffff];
+    if thorough {
+        sks.push(("2^128", arr32("0000000000000000000000000000000100000000000000000000000000000000")));
+        sks.push(("pattern-01..20", arr32("0102030405060708090a0b0c0d0e0f101112131415161718191a1b1c1d1e1f20")));
+        chains.push(("trailing-zero-bytes", arr32("0102030405060708090a0b0c0d0e0f101112131415161718191a1b1c00000000")));
+        depths = vec![0, 1, 2, 3, 127, 128, 254, 255];
+        indices = IDX.to_vec();
+        indices.extend_from_slice(&[0x0000_0100, 0x0100_0000]);
+    }
+    let keys: Vec<GridKey> = sks
+        .into_iter()
+        .map(|(name, sk)| {
+            let k = secp::from_be(&sk);
+            assert!(sk != [0u8; 32] && k < secp::n(), "grid key in [1, n-1]");
+            GridKey { name, sk, pk: secp::encode_point(&secp::mul_g(&k), true) }
+        })
+        .collect();
+    // a fingerprint as derivation produces it: hash160(public key)[0..4] of the tv1 master
+    let real = hashes::hash160(&keys[2].pk);
+    let mut fps: Vec<Option<[u8; 4]>> = vec![None, Some([0; 4]), Some([0, 0, 0, 1]), Some([1, 0, 0, 0]), Some([0xff; 4]), Some([real[0], real[1], real[2], real[3]])];
+    if thorough {
+        fps.push(Some([0, 0xff, 0, 0]));
+        fps.push(Some([0x80, 0, 0, 0]));
+    }
+    Grid { depths, indices, fps, keys, chains }
+}
+
+enum LibKey {
+    Prv(XPrv),
+    Pub(XPub),
+}
+
+/// One child of a grid key against the reference child (`want`: None = the reference refuses).
+fn check_child(acc: &mut Acc, case: &Case, entry: &str, index: u32, parent_depth: u8, input: &Value, r: Result<Result<Snap, String>, String>, want: Option<XKey>) {
+    match want {
+        None => refused_step(acc, case, entry, input, parent_depth, r),
+        Some(w) => match r {
+            Ok(Ok(s)) => {
+                if check_snap(acc, case, entry, if entry == "derive" { edge(index) } else { "" }, input, &s, &w, None) {
+                    acc.nontrivial_structural += 1;
+                }
+            }
+            Ok(Err(e)) => {
+                acc.traces += 1;
+                let key = if entry == "derive" { format!("C08/derive/kind=spurious-error{}", edge(index)) } else { format!("C08/{}/kind=spurious-error", entry) };
+                acc.violate(key, case.idx, case.json(input.clone()), format!("{}({}) on a parent at depth {}: {}", entry, index, parent_depth, e));
+            }
+            Err(p) => {
+                acc.traces += 1;
+                acc.violate(format!("C08/{}/kind=panic@{}{}", entry, panic_site(&p), edge(index)), case.idx, case.json(input.clone()), p);
+            }
+        },
+    }
+}
+
+fn eval_grid(g: &Grid, case: &Case, acc: &mut Acc) {
+    let c = coords(case.idx, &g.dims());
+    let is_priv = c[0] == 0;
+    let depth = g.depths[c[1] as usize];
+    let index = g.indices[c[2] as usize];
+    let fp_arg = g.fps[c[3] as usize];
+    let key = &g.keys[c[4] as usize];
+    let (chain_name, chain_code) = &g.chains[c[5] as usize];
+    let kind = kind_name(is_priv);
+    acc.evaluations += 1;
+
+    // `new(.., None)` = parent unknown = four zero bytes (BIP32's own convention for "no parent")
+    let parent_fp = fp_arg.unwrap_or([0; 4]);
+    let want = XKey { is_private: is_priv, version: if is_priv { b58::XPRV_VERSION } else { b58::XPUB_VERSION }, depth, parent_fp, index, chain_code: *chain_code, key: if is_priv { key.sk.to_vec() } else { key.pk.clone() } };
+    let want_s = b58::bip32_serialize(&want);
+    // reference self-consistency (machinery error otherwise)
+    assert!(b58::bip32_deserialize(&want_s).as_ref() == Some(&want), "refs::b58: deserialize(serialize(k)) != k");
+    let fp_text = match fp_arg {
+        None => "None".to_string(),
+        Some(f) => format!("Some({})", hx(&f)),
+    };
+    let input = json!({"kind": kind, "depth": depth, "index": index, "parent_fingerprint_arg": fp_text, "key_name": key.name, "key": hx(&want.key), "chain_code_name": chain_name, "chain_code": hx(chain_code), "reference_string": want_s});
+    if !is_priv && depth == 2 && index == H && fp_arg.is_none() && c[4] == 2 && c[5] == 1 {
+        acc.sample(3, || json!({"space": "field-grid", "kind": kind, "depth": depth, "index": index, "parent_fingerprint_arg": fp_text, "key_name": key.name, "chain_code_name": chain_name, "reference_string": want_s}));
+    }
+    // BIP32 test vector 5 shape: depth 0 with a non-zero fingerprint or index. The reference does not
+    // apply that rule, and the statement does not say whether from_string may: learned, not demanded.
+    let odd_master = depth == 0 && (parent_fp != [0; 4] || index != 0);
+
+    // ---- leg A: constructor, getters and to_string against the same fields serialised by the reference
+    acc.transitions += 1;
+    let built = guard(|| -> Result<LibKey, String> {
+        let fp_opt: Option<&[u8]> = fp_arg.as_ref().map(|f| &f[..]);
+        if is_priv {
+            let sk = bsv::PrivateKey::from_bytes(&key.sk).map_err(|e| e.to_string())?;
+            Ok(LibKey::Prv(XPrv::new(&sk, chain_code, &depth, &index, fp_opt)))
+        } else {
+            let pk = bsv::PublicKey::from_bytes(&key.pk).map_err(|e| e.to_string())?;
+            Ok(LibKey::Pub(XPub::new(&pk, chain_code, &depth, &index, fp_opt)))
+        }
+    });
+    let lib = match built {
+        Ok(Ok(k)) => Some(k),
+        Ok(Err(_)) => {
+            // PrivateKey/PublicKey::from_bytes refusing a valid key belongs to another property
+            acc.bump("grid_key_material_rejected_by_library", 1);
+            None
+        }
+        Err(p) => {
+            acc.traces += 1;
+            acc.violate(format!("C08/{}.new/kind=panic@{}", kind, panic_site(&p)), case.idx, case.json(input.clone()), p);
+            None
+        }
+    };
+    let mut a_ok = false;
+    if let Some(k) = &lib {
+        acc.transitions += 1;
+        let snap = guard(|| match k {
+            LibKey::Prv(x) => snap_xprv(x),
+            LibKey::Pub(x) => snap_xpub(x),
+        });
+        match snap {
+            Ok(s) => a_ok = check_snap(acc, case, &format!("{}.new", kind), "", &input, &s, &want, if is_priv { Some(&key.pk) } else { None }),
+            Err(p) => acc.violate(format!("C08/{}.to_string/kind=panic@{}", kind, panic_site(&p)), case.idx, case.json(input.clone()), p),
+        }
+    }
+
+    // ---- leg B: the reference's string of these fields through from_string (independent of to_string)
+    acc.transitions += 1;
+    acc.traces += 1;
+    let mut b_status = 0u8;
+    match lib_from_string(is_priv, &want_s) {
+        Ok(Ok(back)) => {
+            if odd_master {
+                acc.bump("grid_depth0_with_nonzero_fingerprint_or_index_accepted_by_from_string", 1);
+            }
+            let d = diff(&back, &want, if is_priv { Some(&key.pk) } else { None });
+            if let Some(first) = d.first() {
+                b_status = 1;
+                acc.violate(format!("C08/{}.from_string/kind=wrong-result/field={}", kind, first.0), case.idx, case.json(input.clone()), format!("valid string {}: {}", want_s, d.iter().map(|x| x.1.clone()).collect::<Vec<_>>().join("; ")));
+            } else if back.s.as_deref() != Ok(want_s.as_str()) {
+                b_status = 2;
+                acc.violate(format!("C08/{}.to_string/kind=roundtrip-differs", kind), case.idx, case.json(input.clone()), format!("from_string({}).to_string() = {:?}", want_s, back.s));
+            } else {
+                acc.nontrivial_structural += 1;
+            }
+        }
+        Ok(Err(e)) => {
+            b_status = 3;
+            if odd_master {
+                acc.bump("grid_depth0_with_nonzero_fingerprint_or_index_rejected_by_from_string", 1);
+            } else {
+                acc.violate(format!("C08/{}.from_string/kind=spurious-error", kind), case.idx, case.json(input.clone()), format!("valid string {} (depth {}, parent fingerprint {}, index {}) rejected: {}", want_s, depth, hx(&parent_fp), index, e));
+            }
+        }
+        Err(p) => {
+            b_status = 4;
+            acc.violate(format!("C08/{}.from_string/kind=panic@{}", kind, panic_site(&p)), case.idx, case.json(input.clone()), format!("valid string {}: {}", want_s, p));
+        }
+    }
+    acc.outcome(&[is_priv as u8, depth, a_ok as u8, b_status]);
+
+    // ---- legs C, D need a faithfully constructed key
+    let k = match (&lib, a_ok) {
+        (Some(k), true) => k,
+        _ => {
+            acc.bump("grid_children_skipped_constructor_diverged", 1);
+            return;
+        }
+    };
+    match k {
+        LibKey::Prv(x) => {
+            // leg C: neutering keeps every header field
+            acc.transitions += 1;
+            let want_p = XKey { is_private: false, version: b58::XPUB_VERSION, key: key.pk.clone(), ..want.clone() };
+            match guard(|| snap_xpub(&XPub::from_xpriv(x))) {
+                Ok(ps) => {
+                    check_snap(acc, case, "xpub.from_xpriv", "", &input, &ps, &want_p, None);
+                }
+                Err(p) => acc.violate(format!("C08/xpub.from_xpriv/kind=panic@{}", panic_site(&p)), case.idx, case.json(input.clone()), p),
+            }
+            // leg D: one normal and one hardened child (depth 255: the reference refuses, so must the library)
+            for ci in [1u32, H] {
+                acc.transitions += 1;
+                let r = guard(|| x.derive(ci).map(|k| snap_xprv(&k)).map_err(|e| e.to_string()));
+                let step_in = json!({"parent": input, "child_index": ci});
+                check_child(acc, case, "derive", ci, depth, &step_in, r, b58::bip32_ckd_priv(&want, ci));
+            }
+        }
+        LibKey::Pub(x) => {
+            acc.transitions += 2;
+            let r = guard(|| x.derive(1).map(|k| snap_xpub(&k)).map_err(|e| e.to_string()));
+            let step_in = json!({"parent": input, "child_index": 1});
+            check_child(acc, case, "xpub.derive", 1, depth, &step_in, r, b58::bip32_ckd_pub(&want, 1));
+            acc.traces += 1;
+            let step_in = json!({"parent": input, "child_index": H});
+            match guard(|| x.derive(H).map(|k| snap_xpub(&k)).map_err(|e| e.to_string())) {
+                Ok(Err(_)) => acc.bump("hardened_public_derivation_refused", 1),
+                Ok(Ok(s)) => acc.violate("C08/xpub.derive/kind=missing-error-hardened", case.idx, case.json(step_in), format!("ExtendedPublicKey::derive({}) returned {:?}", H, s)),
+                Err(p) => acc.violate(format!("C08/xpub.derive/kind=panic@{}{}", panic_site(&p), edge(H)), case.idx, case.json(step_in), p),
+            }
+        }
+    }
+}
+
 // ------------------------------------------------------------------ spaces
 
 pub fn spaces(tier: Tier) -> Vec<Space> {
@@ -1101,7 +1461,7 @@ pub fn spaces(tier: Tier) -> Vec<Space> {
         let route = c[3] as usize;
         acc.evaluations += 1;
         if case.idx == 0 {
-            acc.sample(2, || json!({"space": "chains", "seed_name": seed.name, "chain": kind.name(), "length": len, "route": ROUTE_NAMES[route]}));
+            acc.sample(6, || json!({"space": "chains", "seed_name": seed.name, "chain": kind.name(), "length": len, "route": ROUTE_NAMES[route]}));
         }
         let idxs = kind.indices(len);
         let chain = ref_chain(&seed.bytes, &idxs, route == 0);
@@ -1119,7 +1479,7 @@ pub fn spaces(tier: Tier) -> Vec<Space> {
         let (kind, route) = combos[c[2] as usize];
         acc.evaluations += 1;
         if case.idx == 0 {
-            acc.sample(3, || json!({"space": "deep-255-256", "seed_name": seed.name, "chain": kind.name(), "length": len, "route": ROUTE_NAMES[route]}));
+            acc.sample(7, || json!({"space": "deep-255-256", "seed_name": seed.name, "chain": kind.name(), "length": len, "route": ROUTE_NAMES[route]}));
         }
         let idxs = kind.indices(len);
         let chain = ref_chain(&seed.bytes, &idxs, false);
@@ -1191,14 +1551,26 @@ pub fn spaces(tier: Tier) -> Vec<Space> {
         let s = b58::check_encode(&payload);
         check_string(acc, case, is_priv, &s, key, json!({"base": base.desc, "kind": kind_name(is_priv), "valid_string": text, "payload_len": len, "filler": fill, "string": s}));
     }));
+
+    // 8. seed CONTENT alphabet: text-looking seeds (hex digits in every case, decimal, base58/base64, words, NULs, UTF-8) × lengths,
+    //    and the hex text of every binary seed; the bytes must go into HMAC-SHA512 exactly as given
+    let lens = content_lens(tier);
+    let n_content = (CONTENT.len() * lens.len()) as u64 + 2 * n_seeds;
+    let t = tree.clone();
+    v.push(Space::new("seed-content", n_content, move |case, acc| eval_content(&t, &lens, case, acc)));
+
+    // 9. field grid: keys assembled with `new` over depth × index × parent fingerprint (incl. None) × key × chain code, both kinds
+    let g = grid(tier);
+    v.push(Space::new("field-grid", g.size(), move |case, acc| eval_grid(&g, case, acc)));
     v
 }
 
 fn run(ctx: &Ctx) -> Report {
     let mut r = Report::new(
-        "master: every seed of the seed alphabet through from_seed (both key kinds). paths: seeds × every path of depth 1..2 over the 8-value index alphabet and depth 3 over the full (thorough) / 4-value (quick) alphabet; per path: iterated derive (final edge compared field by field and as strings with the reference child of the library's own parent), string round trips of xprv and xpub, from_xpriv, derive_from_path in every notation of the hardened components, ExtendedPublicKey::derive on the neutered parent (normal index: equals reference CKDpub, which the reference asserts equal to N(CKDpriv); hardened index: must be Err), public derive_from_path. chains: depth 10/100 (and 255/256 isolated) by four routes, compared at every step. corruptions: every single-character substitution at each of the 111 positions, every single-byte change of the 82 decoded bytes without fixing the checksum, payload lengths 74..86 with a valid checksum; verdict of refs::b58::bip32_deserialize vs from_string. Non-trivial = library result existed and was compared field by field (derivations), or the candidate string was judged by both decoders (corruptions); cases are distinct by construction of the products.",
+        "master: every seed of the seed alphabet through from_seed (both key kinds). paths: seeds × every path of depth 1..2 over the 8-value index alphabet and depth 3 over the full (thorough) / 4-value (quick) alphabet; per path: iterated derive (final edge compared field by field and as strings with the reference child of the library's own parent), string round trips of xprv and xpub, from_xpriv, derive_from_path in every notation of the hardened components, ExtendedPublicKey::derive on the neutered parent (normal index: equals reference CKDpub, which the reference asserts equal to N(CKDpriv); hardened index: must be Err), public derive_from_path. chains: depth 10/100 (and 255/256 isolated) by four routes, compared at every step. seed-content: the seed bytes are text — 24 content classes (ASCII hex digits in lower/upper/mixed case, letters only, decimal digits, one repeated digit, 0x prefix, trailing newline / NUL, space padding, one non-hex character, embedded NUL, base58 / base64 / xprv-string text, mnemonic words, UTF-8 multi-byte text, spaces, printable punctuation) × lengths on both sides of 16/32/64/128 (thorough: every length 1..=264), plus the lower- and upper-case hex TEXT of every binary seed; same oracle as master (HMAC-SHA512 over the bytes exactly as given). field-grid: ExtendedPrivateKey::new / ExtendedPublicKey::new over depth × index × parent-fingerprint argument (None, zero, extreme, real) × key × chain code: getters and to_string equal refs::b58::bip32_serialize of the same fields, the reference string goes through from_string and must come back with every field and re-serialise identically, from_xpriv keeps the header, one normal and one hardened child equal reference CKDpriv / CKDpub of the same parent (depth 255: must be Err). corruptions: every single-character substitution at each of the 111 positions, every single-byte change of the 82 decoded bytes without fixing the checksum, payload lengths 74..86 with a valid checksum; verdict of refs::b58::bip32_deserialize vs from_string. Non-trivial = library result existed and was compared field by field (derivations), or the candidate string was judged by both decoders (corruptions); cases are distinct by construction of the products.",
     );
     let thorough = ctx.tier.is_thorough();
+    let g = grid(ctx.tier);
     r.bounds = json!({
         "seed_lengths_standard": STD_LENS, "seed_lengths_nonstandard": NONSTD_LENS, "seed_patterns": ["00..", "ff..", "01 02 03.."], "bip32_vector_seeds": 4,
         "index_alphabet": IDX, "max_full_path_depth": 3,
@@ -1207,6 +1579,10 @@ fn run(ctx: &Ctx) -> Report {
         "chain_depths": [10, 100, 255, 256], "chain_seeds": chain_seed_names(ctx.tier, false), "deep_chain_seeds": chain_seed_names(ctx.tier, true),
         "corrupted_keys": if thorough { 4 } else { 2 }, "corrupted_kinds": ["xprv", "xpub"], "char_substitutions": "111 positions × 57 other characters",
         "byte_changes": if thorough { "82 offsets × 255 other values" } else { "82 offsets × 16 xor masks" }, "payload_lengths_valid_checksum": "74..=86",
+        "seed_content_classes": CONTENT.iter().map(|c| c.name).collect::<Vec<_>>(), "seed_content_lengths": if thorough { json!("1..=264") } else { json!(CONTENT_LENS_QUICK) }, "seed_content_hex_text_of_binary_seeds": ["lower", "upper"],
+        "grid_kinds": ["xprv", "xpub"], "grid_depths": g.depths, "grid_indices": g.indices,
+        "grid_parent_fingerprint_args": g.fps.iter().map(|f| match f { None => "None".to_string(), Some(f) => format!("Some({})", hx(f)) }).collect::<Vec<_>>(),
+        "grid_keys": g.keys.iter().map(|k| k.name).collect::<Vec<_>>(), "grid_chain_codes": g.chains.iter().map(|c| c.0).collect::<Vec<_>>(), "grid_child_indices": [1, H],
         "deviation_bound": 1
     });
     r.assumptions.push("seeds of non-standard length (outside 16..64 bytes) are compared only when from_seed accepts them (acceptance is learned; all are accepted on the current tree, see counters)".into());
@@ -1214,6 +1590,8 @@ fn run(ctx: &Ctx) -> Report {
     r.assumptions.push("depth 256 lies outside 'any depth up to 255' of the statement; the check only demands that the attempt ends in Err (the reference cannot represent depth 256), a panic or a wrapped depth is reported under kind=panic-depth-overflow / missing-error-depth-overflow".into());
     r.assumptions.push("a corrupted string that is a valid key of the other kind (xpub given to the xprv parser) is not generated and would be excluded; panics of from_string on rejected strings count as rejection here (counter panics_left_to_C09)".into());
     r.assumptions.push("CKDpub(N(parent)) == N(CKDpriv(parent)) on the library follows from two comparisons made per normal edge: ExtendedPublicKey::derive == reference CKDpub and from_xpriv(derive) == reference N(CKDpriv), the two reference values being asserted equal".into());
+    r.assumptions.push("field-grid: `new(.., None)` is expected to store four zero bytes as the parent fingerprint (learned from the constructor; it is also BIP32's own encoding of 'no parent'). Keys at depth 0 with a non-zero fingerprint or index (the shapes BIP32 test vector 5 calls invalid) are serialised by the reference like any other key; whether from_string accepts them is learned (counters grid_depth0_with_nonzero_fingerprint_or_index_accepted/rejected_by_from_string), only a wrong field after acceptance is reported. Fingerprints that are not 4 bytes long and uncompressed public keys are outside the grid".into());
+    r.assumptions.push("seed-content: same acceptance rule as master — seeds of 16..64 bytes must be accepted, other lengths are compared when accepted".into());
     run_spaces_for("C08", ctx, &mut r, spaces(ctx.tier));
     r
 }
